@@ -232,43 +232,15 @@ pub(crate) fn days_to_wyear(days: i32) -> u32 {
     }
 }
 
-/// Returns the years between two dates, considering day of year and subday nanoseconds
+/// Returns the years between two dates, considering month, day of month and subday nanoseconds
 pub(crate) fn years_between(
     first_days: i32,
     first_nanos: u64,
     second_days: i32,
     second_nanos: u64,
 ) -> i32 {
-    let first_year = days_to_date(first_days).0;
-    let first_doy = days_to_doy(first_days);
-
-    let second_year = days_to_date(second_days).0;
-    let second_doy = days_to_doy(second_days);
-
-    let mut years_between = first_year - second_year;
-
-    // Fix needed as year 0 doesn't exist
-    if first_year >= 1 && second_year < 1 {
-        years_between -= 1
-    } else if first_year < 1 && second_year >= 1 {
-        years_between += 1
-    };
-
-    let extra_year = if years_between == 0 {
-        0
-    } else if first_year > second_year
-        && (first_doy < second_doy || (first_doy == second_doy && first_nanos < second_nanos))
-    {
-        -1
-    } else if first_year < second_year
-        && (first_doy > second_doy || (first_doy == second_doy && first_nanos > second_nanos))
-    {
-        1
-    } else {
-        0
-    };
-
-    years_between + extra_year
+    // A year has passed when twelve months have passed
+    months_between(first_days, first_nanos, second_days, second_nanos) / 12
 }
 
 /// Returns the months between two dates, considering day of month and subday nanoseconds
@@ -294,11 +266,11 @@ pub(crate) fn months_between(
 
     let extra_month = if months_between == 0 {
         0
-    } else if first_year > second_year
+    } else if months_between > 0
         && (first_day < second_day || (first_day == second_day && first_nanos < second_nanos))
     {
         -1
-    } else if first_year < second_year
+    } else if months_between < 0
         && (first_day > second_day || (first_day == second_day && first_nanos > second_nanos))
     {
         1
